@@ -65,8 +65,9 @@ func compile(expr ast.Expr, env1 *val.Env, outerPrec oper.BP) compiler.Closure {
 		util.Assert(ok, "expect ident actual %s", e.Obj)
 		id := objId.Name
 		idx := e.Index
+		name := e.Field.Name
 		return func(env *val.Env) *val.Val {
-			return val.Str(fmtVal(env.MustGet(id).Obj().V[idx]))
+			return val.Str(fmtVal(env.MustGet(id).Obj().Load(idx, name)))
 		}
 	case *ast.CallExpr:
 		util.Assert(e.Resolved != "", "only support static dispatch")
